@@ -45,7 +45,7 @@ Section Once.
     let '(m', r) := qm_append c m v in
     MInv (produced || produces r) m' /\ (produced = true -> produces r = false).
   Proof.
-    intros Hpos [A [B C]]. unfold qm_append.
+    intros Hpos [A [B C]]. unfold qm_append. gunf.
     destruct (memN (v_author v) (qm_used m)) eqn:Em.
     { simpl. rewrite orb_false_r. split; [split; auto|reflexivity]. }
     assert (Hnin : ~ In (v_author v) (map fst (qm_votes m))).
